@@ -6,6 +6,7 @@
   the source if the credit covers what is left.
 -/
 import Verif.Lemmas.ReaderSteady
+import Verif.Lemmas.ReaderChunks
 namespace Verif
 
 def PlainK (K : Nat) (s : List Resp) : Prop := ∀ x ∈ s, x.err = none ∧ K ≤ x.k
@@ -231,12 +232,16 @@ theorem acquire_credit (K credit : Nat) (r : Rd) (n m : Nat) (r' : Rd) (hinv : I
 
 /-- what a `Credit` value claims about a model state -/
 structure CreditInv (cr : Credit) (r : Rd) : Prop where
-  all : cr.all = true → r.Live
+  all : cr.all = true → r.Live2
   plain : cr.all = false → PlainD cr.K cr.credit r
 
-theorem CreditInv.frame {cr : Credit} {r r' : Rd} (h : CreditInv cr r) (he : r'.err = r.err)
-    (hs : r'.src = r.src) : CreditInv cr r' :=
-  ⟨fun ha => (h.all ha).frame he hs, fun ha => (h.plain ha).frame he hs⟩
+theorem CreditInv.advance {cr : Credit} {r : Rd} (h : CreditInv cr r) (k : Nat) :
+    CreditInv cr ({ r with ri := r.ri + k } : Rd) :=
+  ⟨fun ha => (h.all ha).advance k, fun ha => (h.plain ha).frame rfl rfl⟩
+
+theorem CreditInv.release {cr : Credit} {r : Rd} (h : CreditInv cr r) : CreditInv cr r.release :=
+  ⟨fun ha => live2_release r (h.all ha),
+   fun ha => (h.plain ha).frame (release_frame r).1 (release_frame r).2⟩
 
 theorem minK_le (s : List Resp) (x : Resp) (hx : x ∈ s) : minK s ≤ x.k := by
   induction s with
@@ -263,7 +268,7 @@ theorem minK_pos (s : List Resp) (hne : s ≠ []) (h : ∀ x ∈ s, 1 ≤ x.k) :
       omega
 
 theorem creditInv_init_default (S : Bytes) (script : List Resp) (live : Bool)
-    (hl : live = true → (Rd.newDefault ⟨S, script⟩).Live) :
+    (hl : live = true → (Rd.newDefault ⟨S, script⟩).Live2) :
     CreditInv (Credit.init live script) (Rd.newDefault ⟨S, script⟩) := by
   unfold Credit.init
   split
@@ -286,7 +291,7 @@ theorem creditInv_init_default (S : Bytes) (script : List Resp) (live : Bool)
 
 theorem creditInv_init_bytes (data : Bytes) (cap : Nat) :
     CreditInv (Credit.init true []) (Rd.newBytes data cap) :=
-  ⟨fun _ => live_newBytes data cap, fun h => by simp [Credit.init] at h⟩
+  ⟨fun _ => Or.inl (live_newBytes data cap), fun h => by simp [Credit.init] at h⟩
 
 /-- acquire against a credit that does not say `all` -/
 theorem acquire_creditInv (cr : Credit) (c : Cur) (r : Rd) (op : ROp) (n m : Nat) (r1 : Rd)
@@ -311,7 +316,7 @@ theorem acquire_creditInv (cr : Credit) (c : Cur) (r : Rd) (op : ROp) (n m : Nat
     · rename_i hpast
       split
       · rename_i hcov
-        exact ⟨fun _ => Or.inl (hC (by omega) hcov), fun ha => by simp at ha⟩
+        exact ⟨fun _ => Or.inl (Or.inl (hC (by omega) hcov)), fun ha => by simp at ha⟩
       · exact ⟨fun ha => by simp at ha, fun _ => Or.inr (Or.inl rfl)⟩
   · intro hmust
     unfold Credit.must at hmust
@@ -331,7 +336,7 @@ theorem step_credit (cr : Credit) (c : Cur) (r : Rd) (op : ROp) (habs : Abs c r)
     (cr.must c op = true → liveOk c op (r.step op).1 = true) := by
   cases hall : cr.all with
   | true =>
-    have h := step_live c r op habs hs (hJ.all hall)
+    have h := step_live2 c r op habs hs (hJ.all hall)
     have : cr.after c op = cr := by simp [Credit.after, hall]
     rw [this]
     exact ⟨⟨fun _ => h.1, fun ha => by rw [hall] at ha; simp at ha⟩, fun _ => h.2⟩
@@ -358,7 +363,7 @@ theorem step_credit (cr : Credit) (c : Cur) (r : Rd) (op : ROp) (habs : Abs c r)
             · have := (h2 hm).1 hfit; omega
             · omega
           simp [Rd.step, hn, RdRes.toRes, liveOk, this]
-        · exact ⟨by simp only [Rd.step, hn]; exact h1.frame rfl rfl,
+        · exact ⟨by simp only [Rd.step, hn]; exact h1.advance _,
             fun _ => by simp [Rd.step, hn, RdRes.toRes, liveOk]⟩
     | peek n =>
       have hs : r.Small n.toNat := hs
@@ -397,13 +402,13 @@ theorem step_credit (cr : Credit) (c : Cur) (r : Rd) (op : ROp) (habs : Abs c r)
             · have := (h2 hm).1 hfit; omega
             · omega
           simp [Rd.step, hn, RdRes.toRes, liveOk, this]
-        · exact ⟨by simp only [Rd.step, hn]; exact h1.frame rfl rfl,
+        · exact ⟨by simp only [Rd.step, hn]; exact h1.advance _,
             fun _ => by simp [Rd.step, hn, RdRes.toRes, liveOk]⟩
     | readBinary k =>
       have hs : r.Small k := hs
       obtain ⟨m, r1, hacq, ha, hn⟩ := readBinary_cases r k hinv hs
       obtain ⟨h1, h2⟩ := acquire_creditInv cr c r (.readBinary k) k m r1 habs hs hall hJ rfl hacq
-      refine ⟨by simp only [Rd.step, hn]; exact h1.frame rfl rfl, fun hm => ?_⟩
+      refine ⟨by simp only [Rd.step, hn]; exact h1.advance _, fun hm => ?_⟩
       have hrem : r1.remaining = r.remaining := ha.remaining hri
       have : min m k = min k c.rest.length := by
         rw [hrest]
@@ -421,10 +426,9 @@ theorem step_credit (cr : Credit) (c : Cur) (r : Rd) (op : ROp) (habs : Abs c r)
           omega
       simp [Rd.step, hn, liveOk, this]
     | release e =>
-      have hf := release_frame r
       have : cr.after c (.release e) = cr := by simp [Credit.after, ROp.req]
       rw [this]
-      exact ⟨by simpa [Rd.step] using hJ.frame hf.1 hf.2, fun _ => by simp [liveOk]⟩
+      exact ⟨by simpa [Rd.step, Rd.releaseE] using hJ.release, fun _ => by simp [liveOk]⟩
     | readLen =>
       have : cr.after c .readLen = cr := by simp [Credit.after, ROp.req]
       rw [this]
